@@ -751,14 +751,16 @@ PROPS['C04'] = {
                  'Ideal.fifo_step', 'Ideal.fifo_run', 'Ideal.run_eq_runFrom', 'Wire.dec_enc'],
     'builds': ['default', 'memfd', 'force-inprocess'],
     'scenarios': plus(chain_scen(['default', 'memfd', 'force-inprocess'], 160, 4000), wire_scen('enc', 800, 12000), world_scen(['default'], 200, 4000),
-                      lambda tier, seed: [{'args': ['crash', '--shape', str(i), '--tier', tier]} for i in ((1, 2, 5) if tier == 'thorough' else (1,))]),
+                      lambda tier, seed: [{'args': ['crash', '--shape', str(i), '--tier', tier]} for i in ((1, 2, 5) if tier == 'thorough' else (1,))],
+                      frag_scen('c15', [4608], [4608, 0])),
     'search': search_chain,
     'rule': ('chain: a receiver transferred over 1..5 hops inside carrier messages {0..2 senders before it, the receiver, 0..2 regions (lengths 0, 1, 4095, 4096, 4097, 10000), '
              '0..1 senders after it, padding of 33 bytes or 300 KB (multi-packet)} to the same thread, another thread or a spawned process and back, with 0..3 messages sent to '
              'its channel before, during and after every hop; every received sender is used once, regions compared, the final handle must yield every message ever sent, in '
              'order, and then report empty; the whole history is compared with Ideal.run (OS, memfd and in-process builds); wire enc: seeded typed values with endpoints at '
              'arbitrary positions sent through the real serialiser, bytes/attachment order compared with the model and every received endpoint probed with a nonce; world: '
-             'seeded programs with embedded senders / moved receivers / regions vs Ideal.run; crash: after a message with endpoints whose sender process was killed mid-send, the '
+             'frag c15: 0..300 attachments x 5 data shapes incl. multi-packet — an accepted message must arrive with every endpoint working and in position (the attachment '
+             'counts around the control-buffer limit are where acceptance and intact arrival part ways); seeded programs with embedded senders / moved receivers / regions vs Ideal.run; crash: after a message with endpoints whose sender process was killed mid-send, the '
              'next message\'s endpoints must be exactly its own (count and identity probe); non-trivial = at least one hop / a value with an endpoint; distinct = distinct history or value'),
     'explanation': ('round trip of any well-typed value with endpoints (positions, identity, own attachments only), descriptor order through the kernel, and the per-channel FIFO of '
                     'the specification over all programs — moving a receiver any number of times never changes what is queued — are theorems; the transports are compared with '
